@@ -170,7 +170,15 @@ def run_cases(mod, pid, tier, seed, ncases, violations, stats, samples, notes):
     coq_cases, kept = [], []
     seen, nontrivial = set(), 0
     for c in cases:
-        out = mod.run_impl(c)
+        try:
+            out = mod.run_impl(c)
+        except Exception as e:  # an exception class the property module does not expect from the code
+            stats["hist"]["unexpected_exception"] = stats["hist"].get("unexpected_exception", 0) + 1
+            if stats["hist"]["unexpected_exception"] <= 3:
+                violations.append({"kind": "correspondence", "what": "implementation raised an exception the model cannot produce: %s: %s"
+                                   % (type(e).__name__, str(e)[:300]), "case": mod.describe(c), "failing_input": False,
+                                   "correspondence": mod.CORRESPONDENCE})
+            continue
         try:
             cc = mod.coq_case(c, out)
         except Exception as e:
@@ -266,7 +274,10 @@ def replay(mod, pid, path):
     if "diag" in cc:
         rc, o = lib.coq_eval(pid + "r", mod.IMPORTS, cc["defs"], cc["diag"])
         print("model:", o[-3000:])
-    bad = any(failing[cn] for cn in mod.CHECKS) or bool(errors)
+    msgs = mod.py_invariants(c, out) if hasattr(mod, "py_invariants") else []
+    for m in msgs:
+        print("runtime invariant FAIL:", m if isinstance(m, str) else m.get("msg"))
+    bad = any(failing[cn] for cn in mod.CHECKS) or bool(errors) or bool(msgs)
     return 1 if bad else 0
 
 
